@@ -230,6 +230,35 @@ def operand_field(e):
     return None, None
 
 
+def eval_for_class(e, cls, local):
+    """Evaluate a small expression for an IR node of class `cls`: constants, local aliases, and
+    conditional expressions testing the class of self. Returns the value or raises ValueError."""
+    if isinstance(e, ast.Constant):
+        return e.value
+    if isinstance(e, ast.Name) and e.id in local:
+        return eval_for_class(local[e.id], cls, local)
+    if isinstance(e, ast.IfExp):
+        return eval_for_class(e.body if class_test(e.test, cls) else e.orelse, cls, local)
+    raise ValueError(ast.unparse(e))
+
+
+def class_test(t, cls):
+    txt = ast.unparse(t)
+    m = re.fullmatch(r"isinstance\(self, (\w+)\)", txt)
+    if m:
+        return cls == m.group(1)
+    m = re.fullmatch(r"(type\(self\)|self\.__class__) (is|==) (\w+)", txt)
+    if m:
+        return cls == m.group(3)
+    m = re.fullmatch(r"self (is|==) (\w+)", txt)
+    if m:
+        return False  # an instance is never its class
+    m = re.fullmatch(r"not (.+)", txt)
+    if m:
+        return not class_test(ast.parse(m.group(1), mode="eval").body, cls)
+    raise ValueError(txt)
+
+
 def rule_operator_tables(ctx, ix):
     ctx.rule("C06.operator-table", "C token / LLVM opcode, operand order, predicates and conversions agree per IR class", min_instances=30)
     cimpl = registered_impl(ix, C_MOD, "ir_to_c_expression")
@@ -362,19 +391,32 @@ def rule_operator_tables(ctx, ix):
         ctx.instance("C06.operator-table")
         key = f"codegen/_ir_to_llvm.py:ir_to_llvm_expression:{cls}"
         fn = limpl.get(cls)
+        local = {}
+        for st in (fn.body if fn else []):
+            if isinstance(st, ast.Assign) and isinstance(st.targets[0], ast.Name):
+                local[st.targets[0].id] = st.value
         ic = [n for n in ast.walk(fn) if isinstance(n, ast.Call) and isinstance(n.func, ast.Attribute) and n.func.attr.startswith("icmp")] if fn else []
         sel = [n for n in ast.walk(fn) if isinstance(n, ast.Call) and isinstance(n.func, ast.Attribute) and n.func.attr == "select"] if fn else []
-        good = (
-            len(ic) == 1
-            and ic[0].func.attr == "icmp_signed"
-            and [ast.unparse(a) for a in ic[0].args] == [repr(pred), "left", "right"]
-            and len(sel) == 1
-            and [ast.unparse(a) for a in sel[0].args] == ["condition", "left", "right"]
-        )
-        if good:
+        why = None
+        if len(ic) != 1 or len(sel) != 1 or ic[0].func.attr != "icmp_signed" or len(ic[0].args) != 3:
+            why = "not a single signed icmp + select"
+        else:
+            try:
+                got = eval_for_class(ic[0].args[0], cls, local)
+            except ValueError as ex:
+                got = f"? {ex}"
+            if got != pred:
+                why = f"comparison predicate for {cls} is `{got}`"
+            elif [ast.unparse(a) for a in ic[0].args[1:]] != ["left", "right"]:
+                why = "icmp operands are not (left, right)"
+            else:
+                cond_name = next((k for k, v in local.items() if v is ic[0]), None)
+                if [ast.unparse(a) for a in sel[0].args] != [cond_name or "?", "left", "right"]:
+                    why = f"select operands are {[ast.unparse(a) for a in sel[0].args]}"
+        if why is None:
             ctx.ok("C06.operator-table", key)
         else:
-            ctx.fail("C06.operator-table", key, f"{cls}: icmp/select do not implement ((a) {pred} (b) ? (a) : (b))")
+            ctx.fail("C06.operator-table", key, f"{cls}: {why}; C prints TACO_{cls.upper()} = ((a) {pred} (b) ? (a) : (b))")
     # BooleanToInteger: zext
     ctx.instance("C06.operator-table")
     key = "codegen/_ir_to_llvm.py:ir_to_llvm_expression:BooleanToInteger"
